@@ -113,6 +113,7 @@ func (s *Supervisor) checkScan(rec *ScanRecord) {
 			x.c17()
 			x.c18()
 			x.c19()
+			x.c19Fatal()
 		}
 		// advance the lock model: an accepted cloud increase arms it
 		if !gs.Dry {
@@ -444,7 +445,7 @@ func (x *scanCtx) c03() {
 				break
 			}
 		}
-		if a.Clean && !a.Locked {
+		if a.CleanUp && !a.Locked {
 			deficit := gs.MinEff - a.U
 			wantUntaint := deficit
 			if wantUntaint > len(a.Tainted) {
@@ -458,7 +459,7 @@ func (x *scanCtx) c03() {
 			default:
 				x.s.stats.Probe("recovery: untaint some + request rest")
 			}
-			if a.UntaintOK != wantUntaint {
+			if a.UntaintOK != wantUntaint && a.Clean {
 				x.viol("C03", "c03-recovery", "untaint", "", fmt.Sprintf("deficit %d, %d tainted nodes available: expected %d untainted, saw %d", deficit, len(a.Tainted), wantUntaint, a.UntaintOK))
 			}
 			rem := int64(deficit - a.UntaintOK)
@@ -566,7 +567,7 @@ func (x *scanCtx) c04() {
 		}
 	}
 	// clamp lands exactly on the bound
-	if !a.Clean || a.Locked {
+	if !a.CleanUp || a.Locked {
 		return
 	}
 	rems := x.admissibleNeeds()
@@ -674,7 +675,7 @@ func nStarTol(reqCPU, reqMem, cCPU, cMem *big.Int, T int) int64 {
 
 func (x *scanCtx) c05() {
 	a, gs, g := x.a, x.gs, x.g
-	if !a.Clean || a.Locked || a.StarveMay || a.AgeMay {
+	if !a.CleanUp || a.Locked || a.StarveMay || a.AgeMay {
 		return
 	}
 	var cCPU, cMem *big.Int
@@ -723,7 +724,13 @@ func (x *scanCtx) c05() {
 	if len(a.Increase) > 0 && a.Increase[0].Known != nil {
 		k = a.Increase[0].Known
 	}
-	clamped := k.Valid && k.Desired+a.Requested >= boundOf(gs, k) && a.UntaintOK == len(a.Tainted)
+	allAttempted := true
+	for _, n := range a.Tainted {
+		if !a.UntaintAttempted[n.Name] {
+			allAttempted = false
+		}
+	}
+	clamped := k.Valid && k.Desired+a.Requested >= boundOf(gs, k) && allAttempted
 	exact := new(big.Rat).SetFrac(new(big.Int).Mul(a.ReqCPU, big.NewInt(100)), new(big.Int).Mul(cCPU, big.NewInt(int64(g.ScaleUp))))
 	if exact.IsInt() {
 		x.s.stats.Probe("N* exactly integral")
@@ -900,7 +907,7 @@ func (x *scanCtx) c07() {
 			x.s.stats.Probe("force removal and scale-up in one scan")
 		}
 	}
-	if !a.Clean || a.Locked {
+	if !a.CleanUp || a.Locked {
 		return
 	}
 	needs := x.admissibleNeeds()
@@ -910,12 +917,19 @@ func (x *scanCtx) c07() {
 	x.check("c07-remainder")
 	ok := false
 	var rems []int64
+	allAttempted := true
+	for _, n := range a.Tainted {
+		if !a.UntaintAttempted[n.Name] {
+			allAttempted = false
+		}
+	}
 	for _, n := range needs {
 		want := n
 		if want > int64(len(a.Tainted)) {
 			want = int64(len(a.Tainted))
 		}
-		if int64(a.UntaintOK) == want {
+		// fewer successes than wanted are legitimate only if every tainted node was offered (failed writes)
+		if int64(a.UntaintOK) == want || int64(a.UntaintOK) < want && allAttempted && !a.Clean {
 			ok = true
 			rems = append(rems, n-int64(a.UntaintOK))
 		}
@@ -1637,6 +1651,85 @@ func (x *scanCtx) c19() {
 		if len(terms) > 0 && len(dels) > 0 && phase == "grace" && hasAckedForceTerminate(gs) {
 			x.s.stats.Probe("two removal batches in one scan")
 		}
+	}
+}
+
+// c19Fatal: a reap batch that contains a node which is not a member of the
+// known ASG must stop the request with the not-in-group error, which makes
+// RunOnce return it. Judged only in scans without any injected fault, in the
+// calm regime (where the batch the reaper builds is exactly computable).
+func (x *scanCtx) c19Fatal() {
+	a, gs, g := x.a, x.gs, x.g
+	if !x.rec.Calm || x.rec.FaultsFired > 0 || a.Locked || a.Kind != kNormal && a.Kind != kIdleZero && a.Kind != kFromZero || gs.WorldOps > 0 {
+		return
+	}
+	if x.rec.Outcome.Crash || x.rec.Outcome.Panic != "" {
+		return
+	}
+	k := gs.KnownAtList
+	if k == nil || !k.Valid {
+		return
+	}
+	member := func(n *v1.Node) bool {
+		pid, ok := k.Instances[instanceOf(n.Spec.ProviderID)]
+		return ok && pid == n.Spec.ProviderID
+	}
+	var batch []*v1.Node
+	for _, n := range gs.Nodes { // view order = batch order
+		if a.Class[n.Name] == clForce && a.PodsOn[n.Name] == 0 {
+			batch = append(batch, n)
+		}
+	}
+	phase := "force"
+	if len(batch) == 0 {
+		// grace batch (not built when the scan scales up)
+		if a.Bands["up"] || a.StarveMay || a.AgeMay || a.Kind == kFromZero {
+			return
+		}
+		phase = "grace"
+		for _, n := range gs.Nodes {
+			if a.Class[n.Name] != clTainted || annotated(n) {
+				continue
+			}
+			ts, ok := stampOf(n)
+			if !ok {
+				continue
+			}
+			e := gs.TList.Sub(ts)
+			if e > g.Hard || e > g.Soft && a.PodsOn[n.Name] == 0 {
+				batch = append(batch, n)
+			}
+		}
+	}
+	if len(batch) == 0 || k.Desired <= k.Min || k.Desired-int64(len(batch)) < k.Min {
+		return
+	}
+	var foreign *v1.Node
+	before := 0
+	for _, n := range batch {
+		if !member(n) {
+			foreign = n
+			break
+		}
+		before++
+	}
+	if foreign == nil {
+		return
+	}
+	x.check("c19-fatal")
+	x.s.stats.Probe("reap batch contains a non-member (" + phase + ")")
+	if x.rec.Outcome.NotInGroupNode != foreign.Name {
+		x.viol("C19", "c19-fatal", "", phase, fmt.Sprintf("the %s batch contains %s (%q) which is not a member of the known ASG: RunOnce must stop with the not-in-group error naming it; it ended with err=%q (known desired %d min %d, batch %d)", phase, foreign.Name, foreign.Spec.ProviderID, x.rec.Outcome.Err, k.Desired, k.Min, len(batch)))
+		return
+	}
+	n := 0
+	for _, c := range a.Terminates {
+		if c.Phase == phase {
+			n++
+		}
+	}
+	if n > before {
+		x.viol("C19", "c19-fatal", "continued", phase, fmt.Sprintf("%d terminate calls although the non-member %s is at position %d of the batch", n, foreign.Name, before), a.Terminates...)
 	}
 }
 
